@@ -26,12 +26,13 @@ SHAPED = (["kind:" + k for k in enumgen.KIND_NAMES] + ["k:%d" % k for k in range
 def make_cases(ctx, cid, en):
     T = en["T"]
     _, decl = enumgen.classify(en)
-    top = max(v for _, v in decl)
+    top = max([v for _, v in decl if v > 0] + [1])
     lo, khi = enumgen.krange(en["kind"])
     hi = min(1 << (top.bit_length() + 1), khi + 1, 1 << 12)
     negs = []
     if lo < 0:       # signed kinds: a few negative values (the `x < 0` arm of String)
-        negs = sorted(set([-1, -2, lo, lo + 1, -top, -top - 1, -(top << 1)] + [-v for _, v in decl if v]))
+        negs = sorted(set([-1, -2, lo, lo + 1, lo + 2, lo + 3, lo + top, lo | top, -top, -top - 1, -(top << 1)] + [-v for _, v in decl if v > 0]
+                          + [v for _, v in decl if v < 0] + [v | w for _, v in decl if v < 0 for _, w in decl if w > 0]))
         negs = [v for v in negs if lo <= v < 0]
     main = {"id": cid, "en": en, "decl": decl, "files": enumgen.render_files(en),
             "runs": [{"args": ["enum", "-bit", "-type=" + T]}],
@@ -60,10 +61,10 @@ def gen_cases(ctx):
     g = enumgen.EnumGen(ctx.rng)
     ens = [en for en, _ in enumgen.load_corpus(PROP)]
     ens += [g.bits("wf", f) for f in SHAPED]
-    ens += [g.bits("odd") for _ in range(3)]
+    ens += [g.bits("odd") for _ in range(3)] + [g.bits("overlap") for _ in range(6)] + [g.bits("signbit") for _ in range(5)]
     n = ctx.n(60, 500) + len(enumgen.load_corpus(PROP))
     while len(ens) < n:
-        ens.append(g.bits("wf" if ctx.rng.random() < 0.93 else "odd",
+        ens.append(g.bits(ctx.rng.choice(["wf"] * 14 + ["odd", "overlap", "overlap", "signbit", "signbit"]),
                           ctx.rng.choice(SHAPED) if ctx.rng.random() < 0.3 else None))
     out = []
     for i, en in enumerate(ens):
@@ -128,6 +129,7 @@ def run(ctx, obl):
             for f in enumgen.features_of(main["en"]):
                 res.hist("features", f)
             res.hist("requested-feature", main["en"].get("feature", "random"))
+            res.hist("shape", main["en"].get("shape", "corpus"))
             vals = [v for _, v in main["decl"]]
             res.hist("flags", str(sum(1 for v in vals if v and v & (v - 1) == 0)))
             res.hist("composites", str(sum(1 for v in vals if v and v & (v - 1) != 0)))
@@ -144,7 +146,9 @@ def run(ctx, obl):
                     v.setdefault("sources", c.get("files"))
                     v.setdefault("enum", c["en"])
     res.extra["value_flag_pairs_executed"] = npairs
-    res.rule = ("bit-flag enums generated from the grammar (1-8 single-bit flags, contiguous `1 << iota` runs or scattered decimal/hex/shift "
+    res.rule = ("beyond the grammar, also asserted (against the exact general statement Bit.specGeneral): enums with a value that is no union of "
+                "declared bits, with arbitrary overlapping values, and signed enums with a flag on the sign bit (negative values, `_max` negative); "
+                "bit-flag enums generated from the grammar (1-8 single-bit flags, contiguous `1 << iota` runs or scattered decimal/hex/shift "
                 "literals in any order, optional zero constant, 0-3 declared composites `A | B`, all 10 integer kinds, prefixed or plain names); "
                 "`shoot enum -bit -type=T` is run; the emitted file is compiled as it is (finding: undefined `_<t>_map`) and, with the defined table "
                 "substituted, String() is executed for every value in [0, 2^(top+2)) (clipped to the type) and Has/Add/Remove for every pair of "
